@@ -16,6 +16,7 @@ const (
 	mIte
 	mHavoc
 	mFill
+	mLambda
 )
 
 type Mem struct {
@@ -36,6 +37,7 @@ type Mem struct {
 	depth  int
 	id     int
 	fam    string // family key (for the read log)
+	fn     func(addr *Term) *Term // mLambda: pointwise definition
 }
 
 var memCounter int
@@ -77,6 +79,11 @@ func MemIte(c *Term, a, b *Mem) *Mem {
 		return b
 	}
 	return newMem(&Mem{kind: mIte, sort: a.sort, cond: c, a: a, b: b})
+}
+
+// Lambda defines every address pointwise (ghost updates).
+func (m *Mem) Lambda(fn func(addr *Term) *Term) *Mem {
+	return newMem(&Mem{kind: mLambda, sort: m.sort, prev: m, fn: fn})
 }
 
 // Fill sets every address in [lo,hi) to val.
@@ -136,6 +143,8 @@ func (c *MemCtx) read(m *Mem, addr *Term) *Term {
 		}
 	case mIte:
 		out = Ite(m.cond, c.read(m.a, addr), c.read(m.b, addr))
+	case mLambda:
+		out = m.fn(addr)
 	case mFill:
 		in := And(Le(m.lo, addr), Lt(addr, m.hi))
 		out = Ite(in, m.val, c.read(m.prev, addr))
